@@ -39,7 +39,7 @@ func init() {
 		// --- net
 		{"net.extractTLSBinding", "assert", "‹net.Conn›.(*tls.Conn)", "connections come from a listener created by tls.Listen (net.Listen, API contract) or from tls.Dial: every conn is a *tls.Conn"},
 		{"net.extractTLSBinding", "panic", "\"failed extracting TLS topic", "ExportKeyingMaterial cannot fail on an established TLS 1.3 connection with renegotiation disabled (library contract)"},
-		{"net.handleConn", "block", "inMsgs", "unbuffered hand-off to the application's reader on the per-connection goroutine: it can only delay this peer's own traffic (consumer contract)"},
+		{"net.handleConn", "block", "‹chan net.InMsg›", "unbuffered hand-off to the application's reader on the per-connection goroutine: it can only delay this peer's own traffic (consumer contract)"},
 		// --- bls
 		{"(*mpc/bls.SSS).Gen", "bounds", "make(slice)[", local},
 		{"(*mpc/bls.TBLS).ThresholdPK", "panic", "", misuse},
@@ -57,6 +57,6 @@ func init() {
 		{"mpc/ps.localAggregateECPoints", "bounds", "‹[]*math.G2›[", points},
 		{"mpc/ps.marshalShare", "bounds", "", local},
 		// --- adapters
-		{"party).OnMsg", "block", "p.in", "buffered (1000) and drained by the session loop; once the session has ended its handlers are removed (C12.O1), so no further traffic is dispatched to it"},
+		{"party).OnMsg", "block", "‹*ecdsa.party›.in", "buffered (1000) and drained by the session loop; once the session has ended its handlers are removed (C12.O1), so no further traffic is dispatched to it"},
 	}
 }
